@@ -244,7 +244,11 @@ const CHECKS: [&str; 3] = ["Strict", "SkipUnsupported", "SkipAll"];
 const LB: i64 = fx::NOW - 5000; // explicit latest-issuance bound
 const EB: i64 = fx::NOW + 5000; // explicit earliest-expiry bound
 /// (explicit bound?, issuance date)
-const ISSUANCE: [(bool, i64); 5] = [(true, LB), (true, LB - 1), (true, LB + 1), (false, fx::NOW), (false, fx::NOW + 1)];
+/// the last two are after every bound AND not representable as a Timestamp (first second of year 10000; a date given
+/// in milliseconds): a validator may call such a claim set malformed or issued too late, it may not accept it
+const ISSUANCE: [(bool, i64); 7] =
+  [(true, LB), (true, LB - 1), (true, LB + 1), (false, fx::NOW), (false, fx::NOW + 1), (true, 253_402_300_800), (false, 1_893_456_000_000)];
+const LAST_REPRESENTABLE: i64 = 253_402_300_799;
 /// (explicit bound?, expiration date)
 const EXPIRY: [(bool, Option<i64>); 6] =
   [(true, None), (true, Some(EB)), (true, Some(EB + 1)), (true, Some(EB - 1)), (false, Some(fx::NOW)), (false, Some(fx::NOW - 1))];
@@ -707,6 +711,9 @@ fn expect(ch: &Ch) -> Expect {
     5 => Open, // an array of subjects is legal VC data model but has no JWT encoding here
     _ => F,
   };
+  if iss > LAST_REPRESENTABLE && c[STRUCT] == T {
+    c[STRUCT] = Open;
+  }
   // --- subject / holder
   let matches = ch.subject_id().map(|s| s == ch.holder()).unwrap_or(false);
   c[SH] = match ch.sh_mode {
@@ -1043,7 +1050,7 @@ fn body(ctx: &Ctx, core: Option<[u8; 6]>, chooser: &mut Chooser) {
             if errors.len() != 1 {
               ctx.violation(&format!("{entry}|first-error|more-than-one-error"), &format!("errors [{}] | {}", shown(), ctxt()), &case);
             }
-          } else if ex.c[STRUCT] != Open && !unknown {
+          } else if ex.c[STRUCT] != Open && !unknown && ISSUANCE[ch.issuance].1 <= LAST_REPRESENTABLE {
             // (claims that cannot be decoded into a credential leave nothing to evaluate the other units on)
             let reported: BTreeSet<usize> = errors.iter().flat_map(|e| blamed(e).unwrap_or(&[]).iter().copied()).collect();
             for k in UNIT_STAGE {
